@@ -25,7 +25,7 @@ func init() { registry["C19"] = c19{} }
 
 func (c19) Count(tier string) int {
 	if tier == "thorough" {
-		return 4000
+		return 1500
 	}
 	return 320
 }
@@ -60,6 +60,12 @@ func (c19) Gen(rng *rand.Rand, tier string, idx int) Case {
 		{"thr", itoa(int64(thr[0])), itoa(int64(thr[1]))}, {"timeout", btok(timeout)},
 		{"nprod", itoa(int64(nprod))}, {"rows", itoa(int64(rows))}}
 	c.Stat = append(c.Stat, "strat-"+strat, fmt.Sprintf("nprod-%d", nprod), fmt.Sprintf("cap-%d", capn))
+	if tier == "thorough" && idx%25 == 24 {
+		// free-running stress (search only, DESIGN §3.5): real scheduler, conservation oracle
+		c.Ops = [][]string{{"free", itoa(int64(200 + rng.Intn(800))), itoa(int64(rng.Intn(4)))}}
+		c.Stat = append(c.Stat, "sched-free-running")
+		return c
+	}
 	pn := func() string { return "p" + strconv.Itoa(rng.Intn(nprod)) }
 	step := func(t string) { c.Ops = append(c.Ops, []string{"step", t}) }
 	withStop := rng.Intn(10) == 0
@@ -409,8 +415,7 @@ func (r *c19run) op(op []string) [][]string {
 	return [][]string{{"bad-op"}}
 }
 
-func (c19) Exec(c Case) [][][]string {
-	nprod, rows := c19cfgInt(c, "nprod", 1), c19cfgInt(c, "rows", 1)
+func c19perf(c Case) (types.PerformanceConfig, bool) {
 	perf := types.DefaultPerformanceConfig()
 	perf.BufferConfig.DataChannelSize = c19cfgInt(c, "cap", 1)
 	perf.BufferConfig.MaxBufferSize = c19cfgInt(c, "max", 0)
@@ -440,6 +445,120 @@ func (c19) Exec(c Case) [][][]string {
 		perf.OverflowConfig.ExpansionConfig.TriggerThreshold = float64(tn) / float64(td)
 	}
 	perf.WorkerConfig.SinkWorkerCount = 1
+	return perf, timeout
+}
+
+// c19free runs one free-running stress round: producers emit concurrently under the real
+// scheduler, the sink is slowed down now and then, the round ends when the counters add up
+// (or after 5 s). Lines: emit/proc/ret in the order of a global log, then one stats line.
+func c19free(c Case, rowsPer, slow int) ([][]string, string) {
+	nprod := c19cfgInt(c, "nprod", 1)
+	perf, _ := c19perf(c)
+	ssql := streamsql.New(streamsql.WithDiscardLog(), streamsql.WithCustomPerformance(perf))
+	if err := ssql.Execute("SELECT p, k FROM stream"); err != nil {
+		return [][]string{{"execute-error"}}, "execute-error"
+	}
+	var mu sync.Mutex
+	var log [][]string
+	var nproc int64
+	ssql.AddSyncSink(func(res []map[string]interface{}) {
+		mu.Lock()
+		for _, m := range res {
+			log = append(log, []string{"proc", strconv.Itoa(c19asInt(m["p"])), strconv.Itoa(c19asInt(m["k"]))})
+		}
+		n := atomic.AddInt64(&nproc, int64(len(res)))
+		mu.Unlock()
+		if slow > 0 && n%int64(7*slow) == 0 {
+			time.Sleep(30 * time.Microsecond)
+		}
+	})
+	var wg sync.WaitGroup
+	for i := 0; i < nprod; i++ {
+		wg.Add(1)
+		go func(i int) {
+			defer wg.Done()
+			for k := 0; k < rowsPer; k++ {
+				mu.Lock()
+				log = append(log, []string{"emit", strconv.Itoa(i), strconv.Itoa(k)})
+				mu.Unlock()
+				ssql.Emit(map[string]interface{}{"p": i, "k": k})
+				mu.Lock()
+				log = append(log, []string{"ret", strconv.Itoa(i), strconv.Itoa(k)})
+				mu.Unlock()
+			}
+		}(i)
+	}
+	wg.Wait()
+	total := int64(nprod * rowsPer)
+	deadline := time.Now().Add(5 * time.Second)
+	var st map[string]int64
+	for {
+		st = ssql.GetStats()
+		if atomic.LoadInt64(&nproc)+st[stream.InputDroppedCount] == total && st[stream.DataChanLen] == 0 {
+			break
+		}
+		if time.Now().After(deadline) {
+			break
+		}
+		time.Sleep(200 * time.Microsecond)
+	}
+	mu.Lock()
+	out := append([][]string{}, log...)
+	mu.Unlock()
+	st = ssql.GetStats()
+	out = append(out, []string{"stats", itoa(st[stream.InputCount]), itoa(st[stream.InputDroppedCount]),
+		itoa(st[stream.DataChanLen]), itoa(st[stream.DataChanCap]), "t"})
+	ssql.Stop()
+	// the Go-side copy of the oracle only decides whether the round is repeated
+	why := ""
+	seen := map[[2]string]bool{}
+	last := map[string]int{}
+	np := int64(0)
+	for _, l := range out {
+		if l[0] != "proc" {
+			continue
+		}
+		np++
+		key := [2]string{l[1], l[2]}
+		if seen[key] {
+			why = "once-only"
+		}
+		seen[key] = true
+		k, _ := strconv.Atoi(l[2])
+		if prev, ok := last[l[1]]; ok && k <= prev {
+			why = "order"
+		}
+		last[l[1]] = k
+	}
+	if why == "" && (st[stream.InputCount] != total || np+st[stream.InputDroppedCount]+st[stream.DataChanLen] != total) {
+		why = "conserved"
+	}
+	if mc := int64(c19cfgInt(c, "max", 0)); why == "" && mc > 0 && st[stream.DataChanCap] > mc && st[stream.DataChanCap] > int64(c19cfgInt(c, "cap", 1)) {
+		why = "capacity"
+	}
+	return out, why
+}
+
+func (c19) Exec(c Case) [][][]string {
+	if len(c.Ops) == 1 && len(c.Ops[0]) == 3 && c.Ops[0][0] == "free" {
+		rowsPer, _ := strconv.Atoi(c.Ops[0][1])
+		slow, _ := strconv.Atoi(c.Ops[0][2])
+		out, why := c19free(c, rowsPer, slow)
+		if why == "" {
+			return [][][]string{out}
+		}
+		// a failure seen free-running counts only if it reproduces 3 of 3 times with the same input
+		for i := 0; i < 2; i++ {
+			o2, w2 := c19free(c, rowsPer, slow)
+			if w2 == "" {
+				return [][][]string{append([][]string{{"anomaly-unreproduced", why}}, o2...)}
+			}
+			out = o2
+		}
+		return [][][]string{out}
+	}
+	nprod, rows := c19cfgInt(c, "nprod", 1), c19cfgInt(c, "rows", 1)
+	perf, timeout := c19perf(c)
 
 	timed := []string{"expand.retry", "drop.retry", "cons.recv"}
 	if timeout {
